@@ -7,7 +7,7 @@ set_option linter.unusedSectionVars false
 set_option linter.unusedSimpArgs false
 namespace Eru.Cluster2
 open Eru.Cluster (ResAlg)
-variable {R : Type} [ResAlg R] [DecidableEq R]
+variable {R : Type} [ResAlg R] [DecidableEq R] {ex : Nat → Prop}
 
 theorem exec_append (s : St R) (a b : List (Step R)) : exec s (a ++ b) = exec (exec s a) b := by
   simp [exec, List.foldl_append]
@@ -106,8 +106,10 @@ theorem instSteps_ok (n : String) (i : Nat × R) (s : St R) (hc : covered s.wal 
       (exec s (instSteps n i)).wls = ⟨i.1, n, i.2⟩ :: s.wls := by
   refine ⟨?_, ⟨rfl, ?_, ?_⟩, rfl⟩
   · have hr : recorded ({ s with cts := ⟨i.1, n, false⟩ :: s.cts, wal := s.wal ++ [.created i.1 n] } : St R) i.1 = false := hf
+    have hf' : ∀ x ∈ s.wls, ¬ x.id = i.1 := by simpa [recorded] using hf
     simp [instSteps, validTrace, Step.enabled, Step.apply, pendingCreated_append, pendingCreated, Ev.isCreated,
-      covered_append, hc, hr, runningCt]
+      covered_append, hc, runningCt, recorded]
+    exact hf'
   · intro k hk
     show covered ((s.wal ++ [Ev.created i.1 n]).erase (Ev.created i.1 n)) k = true
     exact any_erase_of (by rw [← covered, covered_append, hk]; rfl) rfl
@@ -232,7 +234,7 @@ theorem load_congr (s s' : St R) (h : s'.wls = s.wls) (m : String) : load s' m =
 
 /-- **The fixed deployment code respects the WAL protocol**: from every state satisfying `Pre`,
 for every plan whose nodes are among the logged nodes and whose container ids are fresh and distinct -/
-theorem create_valid (s0 : St R) (nodes : List String) (plan : Plan R) (hpre : Pre s0)
+theorem create_valid (s0 : St R) (nodes : List String) (plan : Plan R) (hpre : Pre ex s0)
     (hsub : ∀ e ∈ plan, e.1 ∈ nodes) (hfresh : ∀ j ∈ planIds plan, recorded s0 j = false)
     (hnd : (planIds plan).Nodup) : validTrace s0 (createSteps nodes plan) = true := by
   unfold createSteps
